@@ -169,14 +169,14 @@ REG = {
          "at the last-but-one iterate): about 2-4x the largest residual observed. Nodes are characterised through exactness, not compared with tabulated Legendre roots.",
     technique="TLA+ model of the slot-filling loop and of the affine map of symmetric rules (TLC exhaustive over orders / rational stand-in rules), exact moments, and trace validation of rules recorded for every order 1..512 and sampled orders to 4000"),
  "C14": dict(
-    engine="spec/MonteCarlo.tla, MC_MonteCarlo.tla (2 cfgs), Trace_MC.tla; harness/c14.cpp; hook verif_mc_seed in src/Integration.cpp",
+    engine="spec/MonteCarlo.tla, MC_MonteCarlo.tla (2 cfgs), VegasStatics.tla, Trace_MC.tla; harness/c14.cpp; hook verif_mc_seed in src/Integration.cpp",
     design_ref="DESIGN.md §4.14",
     text="The specification of an integration has no history variable: Trace_MC keeps only a memo from call keys (method, dimension, region, budget, integrand, seed) to "
          "result bits and accepts a recorded call only if the integrand was never evaluated outside the hyper-rectangle and the bits agree with every earlier execution of "
          "the same key. Every observed call is executed in a fresh process and again after a random history of 1..4 other integrations of differing method, dimension, "
          "region and budget (seed hook), so history dependence of Vegas' function-local statics or Miser's private generator rejects the trace. MonteCarlo.tla also models "
          "Miser's generator as the code uses it (advanced per dimension in every node, picks the split dimension of flat nodes): TLC refutes history freedom when the state "
-         "is carried across calls (the pinned code, repaired in /repo) and proves it with a per-call reset. Constants are accepted against c*V within the rounding of the "
+         "is carried across calls (the pinned code, repaired in /repo) and proves it with a per-call reset; VegasStatics.tla is a taint analysis of the forty function-local statics of Vegas (block-wise read and write sets): entered with init = 0 no stale object is read, restarts read the previous grid by design, the tail of the work vector handed to the integrand stays stale. Constants are accepted against c*V within the rounding of the "
          "sum, smooth integrands (exponential, off-centre Gaussian, polynomial; 1..6 dimensions, offset anisotropic regions of widths 1e-3..1e3) within six standard errors "
          "of the mean of 32 seeded repetitions, and the 2D/3D front ends on boxes with disjoint limit ranges per axis (every argument inside its own pair of limits).",
     note="Statistical clauses use fixed seeds. Budgets 1e3..6e4 (quick) rather than up to 1e6. Vegas called directly with init>0 (restart) is outside the statement. The vector handed to the integrand by Vegas has 10 "
